@@ -304,7 +304,7 @@ impl TryFrom<&[u8]> for ByteString {
 
 impl TryFrom<Vec<u8>> for ByteString {
     type Error = str::Utf8Error;
-//@extract file=bytestring/src/lib.rs item="impl TryFrom<Vec<u8>> for ByteString / fn try_from" ret=r props=C20 name=lib::try_from_vec
+//@extract file=bytestring/src/lib.rs item="impl TryFrom<Vec<u8>> for ByteString / fn try_from" ret=r props=C20 name=lib::try_from_vec closures=1
 //@spec
     ensures
         r.is_ok() <==> is_utf8(value@),   // [C20]
